@@ -617,7 +617,8 @@ func selftest(id string) int {
 		runs = r
 	}
 	var ref []byte
-	for k, procs := range []string{"1", "4", "16", "1", "16"} {
+	procList := []string{"1", "4", "16", "1", "16", "4", "2", "16", "1", "8", "16", "4"}
+	for k, procs := range procList {
 		args := []string{"-mode", "selftest", "-prop", id, "-seed", fmt.Sprint(baseSeed()), "-from", "0", "-runs", runs, "-sites", scratch + "/sites.json"}
 		var out []byte
 		var err error
@@ -649,6 +650,6 @@ func selftest(id string) int {
 			return 2
 		}
 	}
-	fmt.Printf("selftest %s: %s runs identical across 5 processes (GOMAXPROCS 1,4,16,1,16)\n%s", id, runs, tail(ref, 600))
+	fmt.Printf("selftest %s: %s runs identical across %d processes (GOMAXPROCS %s)\n%s", id, runs, len(procList), strings.Join(procList, ","), tail(ref, 300))
 	return 0
 }
